@@ -22,6 +22,9 @@ func inline(h func(m *Machine, it *Item, args []Value) Value) Intrinsic {
 	}
 }
 
+// Redirect is the exported form of redirect (per-harness contract stubs).
+func Redirect(model string) Intrinsic { return redirect(model) }
+
 // redirect calls a Go model function from the overlay (package mpb) instead.
 func redirect(model string) Intrinsic {
 	return func(m *Machine, wl *worklist, it *Item, fn *ssa.Function, args []Value, resultReg int) bool {
@@ -205,6 +208,10 @@ func registerIntrinsics(m *Machine) {
 		m.setBufText(it, a[0].(Ptr), m.EmptyText())
 		return nil
 	})
+	I["(*bytes.Buffer).String"] = inline(func(m *Machine, it *Item, a []Value) Value {
+		return m.bufText(it, a[0].(Ptr))
+	})
+	I["(*bytes.Buffer).Bytes"] = I["(*bytes.Buffer).String"]
 	I["(*bytes.Buffer).Len"] = inline(func(m *Machine, it *Item, a []Value) Value {
 		return m.bufText(it, a[0].(Ptr)).N
 	})
